@@ -15,7 +15,13 @@ var c20Trivial = []string{"00000000", "11111111", "22222222", "33333333", "44444
 func Harness_C20_q_validate_pin() {
 	n := verif.Choice("len", 13)
 	pin := verif.String("pin", n)
-	out, err := ValidatePin(pin)
+	var out string
+	var err error
+	p := verif.Panics(func() { out, err = ValidatePin(pin) })
+	verif.Assert(!p, "validate-pin-returns")
+	if p {
+		return
+	}
 	ok := n == 8
 	if n == 8 {
 		for i := 0; i < 8; i++ {
